@@ -175,6 +175,15 @@ def scoping_rules(chk, P):
     tr, _ = trace("Repeat")
     got = [e for e in (tr or []) if e[0] in ("push_frame", "insert", "parse_data_row", "pop_frame")]
     chk.require(got == [("push_frame",), ("insert", "'n'"), ("parse_data_row",), ("pop_frame",)] and tr is not None and tr.index(("parse_expr",)) < tr.index(("push_frame",)), "PAIR", "PAIR:scoping:repeat", "bound parsed outside; push_frame, insert(\"n\"), row, pop_frame", "repeat arm scope trace is %s" % tr)
+    # the name bound at run time is the name put in scope at parse time
+    for arm, inserted in (("Loop", "Parser::text(self, try(Parser::expect(self, TokenKind::Ident{})))"), ("Repeat", "'n'")):
+        vars_ = set()
+        for (cb, bb, i, st) in P.constructors("stmt::Stmt::Loop"):
+            if cb is b:
+                ac = [a for a in pan.arm_context(b, bb, cfg) if a.get("enum", "").endswith("TokenKind") and canon(a["on"]) == "Parser::peek(self)"]
+                if ac and arm in ac[-1]["variants"]:
+                    vars_.add(canon(dict(P.sl(b).rvalue(st["rv"], bb, i)[3])["variable"]))
+        chk.require(vars_ in ({"ToString::to_string(%s)" % inserted}, {"Into::into(%s)" % inserted}), "PAIR", "PAIR:scoping:%s-binds-the-name-it-scopes" % arm.lower(), "Stmt::Loop.variable is the name inserted into the parse-time scope", "%s builds Loop{variable: %s} but scopes %s" % (arm.lower(), sorted(vars_), inserted))
     tr, _ = trace("While")
     chk.require(tr is not None and not [e for e in tr if e[0] in ("push_frame", "pop_frame", "insert", "replace-vars")], "PAIR", "PAIR:scoping:while-opens-no-scope", "no frame call on the while arm", "while arm scope trace is %s" % tr)
     tr, _ = trace("Let")
